@@ -450,11 +450,11 @@ fn check_imm(c: &ImmCase, rec: &mut CaseRec) -> Verdict {
 
 pub fn property() -> Property {
     let families: Vec<Box<dyn Family>> = vec![
-        prop_family("model-lockstep", 30_000, 1_500_000, |_| case(), check),
-        prop_family("input-vs-assignment", 20_000, 800_000, |_| case(), check_meta),
+        prop_family("model-lockstep", 90_000, 1_500_000, |_| case(), check),
+        prop_family("input-vs-assignment", 50_000, 800_000, |_| case(), check_meta),
         prop_family(
             "immediate-input",
-            5_000,
+            30_000,
             100_000,
             |_| (any::<bool>(), any::<bool>(), replies()).prop_map(|(string_target, cell, mut replies)| {
                 replies.truncate(5);
